@@ -100,6 +100,7 @@ class Angle:
                 return self
             if o == -1:
                 return -self
+            return ScaledAngle(self, exact(o))        # unit conversion of an angle (rad2deg): opaque scaled value
         raise NotEncodable("angle * %r" % (o,))
     __rmul__ = __mul__
 
@@ -123,6 +124,23 @@ class Angle:
 
     def __repr__(self):
         return "Angle(c=%s, s=%s)" % (self.c, self.s)
+
+
+class ScaledAngle:
+    """k * angle (e.g. degrees of an angle object); only carried around and compared"""
+    __slots__ = ("angle", "k")
+
+    def __init__(self, angle, k):
+        self.angle, self.k = angle, k
+
+    def __deepcopy__(self, memo):
+        return self
+
+    def __format__(self, spec):
+        return "<angle*k>"
+
+    def __repr__(self):
+        return "ScaledAngle(%r, %s)" % (self.angle, self.k)
 
 
 def atan2(y, x):
